@@ -212,10 +212,24 @@ func checkC07() fw.Check {
 					}
 					p := engParams{first: uint8(first), last: uint8(last), timeout: 200 * time.Millisecond, poll: 40 * time.Millisecond, delay: 10 * time.Millisecond}
 					script := c07RandomScript(r, p)
+					if i%5 == 4 {
+						// a burst of polls that end at once with a retryable error (unrelated / malformed packets queued ahead
+						// of the replies): twice as many as poll intervals fit into the listening window
+						n := int(p.last) - int(p.first) + 1
+						burst := 2 * int((p.timeout+time.Duration(n)*p.delay)/p.poll)
+						for k := 0; k < burst; k++ {
+							script = append(script, scripted.Reply{At: time.Duration(k) * time.Microsecond, Bad: 1 + r.Intn(4)})
+						}
+					}
 					d := scripted.New(true, script)
 					res, err := runEngine(context.Background(), true, d, p)
 					ev := d.Snapshot()
 					checkMerge(c, id, p.first, p.last, ev, res, err)
+					// every reply that became available before the deadline was read (see the exhaustive tier)
+					n := int(p.last) - int(p.first) + 1
+					if un := d.Unused(p.timeout + time.Duration(n)*p.delay - time.Microsecond); len(un) > 0 && err == nil {
+						c.Violate("C07", "reply-never-read", fmt.Sprintf("%s: %d reply(ies) available before the deadline were never read by the engine (first: ttl %d due at %v)", id, len(un), un[0].TTL, un[0].At), ev)
+					}
 					c.Count("schedules", 1)
 					il := interleaving(ev)
 					if strings.Contains(il, "R") {
